@@ -7,7 +7,7 @@ EXPLANATION = (
     "Decides the structural necessary conditions for polynomial parsing: packrat memoisation is enabled "
     "unconditionally at import with a cache not smaller than pyparsing's default and is never switched "
     "off or replaced anywhere (Z1); no Forward is left-recursive and no repetition ranges over a nullable "
-    "expression (Z3). The recursive cycles that contain alternations - the reason memoisation is required "
+    "expression (Z3). Z4: on every recursive cycle at most one alternative of any alternation can re-enter the cycle on the same first token(s), unless the memo table is unbounded - with the default 128-entry FIFO memo a second overlapping alternative multiplies the work per nesting level. The recursive cycles that contain alternations - the reason memoisation is required "
     "- are listed (Z2). No timing is measured: a bound on run time is a run-time quantity and is not "
     "claimed.")
 ASSUMPTIONS = [
@@ -22,4 +22,5 @@ def run(ctx, rep):
     rep.require_min("Z1", 20)
     rep.run(RG.rule_recursion_evidence, ctx, rep, "Z2")
     rep.run(RG.rule_termination, ctx, rep, "Z3")
+    rep.run(RG.rule_recursion_fanout, ctx, rep, "Z4")
     rep.require_min("Z3", 10)
